@@ -109,7 +109,9 @@ void seg_event(int kind, uint64_t a, uint64_t b, uint64_t c, uint64_t d) {
     Pic &p = pics[key];
     if (kind == EV_SEG_PIC) {
         int w = (int)(c >> 16), h = (int)(c & 0xffff);
-        if (p.w && (p.picnum != picnum)) { // pcs reused for a new picture
+        // pcs reused for a new picture; an overlay picture carries the picture number of its alt-ref, so a segment assignment that
+        // arrives after the previous picture on this pcs completed also starts a new picture (a re-encode announces itself by SEG_RESET)
+        if (p.w && (p.picnum != picnum || p.ended == p.w * p.h)) {
             if (p.ended != p.w * p.h) bad("seg_incomplete", "picture %llu tile group %d: %d of %d SBs coded when its PCS was reused", (unsigned long long)p.picnum, tg, p.ended, p.w * p.h);
             p = Pic();
         }
@@ -171,4 +173,11 @@ void events_summarize(J &out) {
     // objects still queued for a consumer at the end
     uint64_t undelivered = 0; for (auto &f : fifos) undelivered += f.second.pending.size();
     out.set("srm_pending_at_end", undelivered);
+    // per-resource census of object states (diagnostic: which pool is exhausted in a decided deadlock)
+    if (g_case["oracles"].geti("srm_census", 0)) {
+        std::vector<std::vector<int>> cen(ress.size(), std::vector<int>(6, 0));
+        for (auto &w : wraps) if (w.second.res >= 0 && (size_t)w.second.res < ress.size()) cen[w.second.res][w.second.state]++;
+        J a = J::arr(); for (size_t i = 0; i < ress.size(); i++) { J e = J::arr(); e.push((uint64_t)ress[i].nobj); for (int k = 0; k < 6; k++) e.push((uint64_t)cen[i][k]); a.push(e); }
+        out.set("srm_census", a);
+    }
 }
